@@ -48,9 +48,11 @@ package interop
 //@ inline
 //@ func (*Context).BaseStorageFee
 //@ inline
+//@ spec height(ic *Context) uint32
 //@ func (*Context).BlockHeight
 //@ assumed
 //@ pure
+//@ ensures result == height(ic)
 //@ func (*Context).SyscallHandler
 //@ may-panic
 //@ opt frame off
